@@ -104,4 +104,11 @@ TEXT["C18"] = dict(engine="verus+engineB",
    note="NOT decided: kill at an arbitrary instant (durability and atomicity of SQLite's autocommit are trusted), 'behaves exactly as an uninterrupted server' beyond 'same table => same contract'. "
         "R18: functions writing through self.conn are given &mut self in the extracted text.")
 
+TEXT["C02"] = dict(engine="verus+kani+engineB",
+   technique="Verus on R9 slices of the real range expansions (apply-subnet loop, default-pool expression desugared by R17b) against the documented sets, pool-membership postconditions of the allocation functions, Kani complete harness for Ipv4Subnet",
+   level="Unbounded deductive proof for every prefix length 0..=32 and every network: the apply-subnet loop appends exactly network+1 ..= network+2^(32-len)-2 (nothing for /31,/32) without overflow; "
+         "the default pool of an `addresses:` prefix is exactly {hosts} minus the server address minus every policy-used address; every address granted by allocate_address belongs to the set it was given. "
+         "Ipv4Subnet::{new,netmask,network,broadcast,contains} complete over all 2^32 x 256 inputs (Kani).",
+   note="NOT decided: apply-range (inclusive range loop: no vstd ghost-iterator spec; yaml containers block Kani), reservation subtraction at the end of parse_policy, policy override of address sets (C11), YAML -> values.")
+
 NA = {}
